@@ -1,6 +1,6 @@
 """C13: the request put on the wire matches the connection's protocol (level: other)."""
 import re
-from core import (norm, L_call, L_variant, arms, assigns_to_return, closure_arg_of, sig, const_of, layer_stack, split_type_args, CallSite, AbsPaths)
+from core import (norm, L_call, L_variant, arms, assigns_to_return, closure_arg_of, sig, const_of, layer_stack, split_type_args, CallSite, AbsPaths, INT_CMP)
 from mir import op_place
 
 META = {
@@ -157,6 +157,7 @@ def C13_2(ctx, facts):
         if body is None:
             ctx.undecided("set_host_header|value", "value closure not found", c.where())
             continue
+        body = facts.unit(body, expand=True) if body.key in facts.fns else body
         rets = facts.roots_up(body, {"l": 0, "p": []})
         hs = [r for r in rets if r.kind == "call" and r.site.is_("http::Uri::host", "http::uri::Uri::host")]
         pt = [r for r in rets if r.kind == "call" and r.site.is_("service::host::get_non_default_port")]
@@ -175,7 +176,8 @@ def C13_2(ctx, facts):
             oracles = [(r"Uri::port$", lambda site, vals, port=port: none if port is None else some_port),
                        (r"Port<.*>::as_u16$|Port::as_u16$", lambda site, vals, port=port: ("const", str(port)) if port is not None else None),
                        (r"Uri::port_u16$", lambda site, vals, port=port: none if port is None else ("variant", "Some", ((0, ("const", str(port))),))),
-                       (r"service::host::is_schema_secure$", lambda site, vals, secure=secure: ("const", "true" if secure else "false"))]
+                       (r"service::host::is_schema_secure$", lambda site, vals, secure=secure: ("const", "true" if secure else "false")),
+                       INT_CMP]
             try:
                 outs = AbsPaths(p, oracles=oracles).outcomes()
             except AbsPaths.Undecided as e:
